@@ -133,13 +133,42 @@ fn run_case<'a>(ctx: &'a Ctx, case: u64, acc: &'a mut Acc) -> CaseFut<'a> {
         let mut log: Vec<Value> = Vec::new();
         let mut verdicts = std::collections::BTreeSet::new();
         let (mut n_acc, mut n_ref, mut n_foreign) = (0, 0, 0);
+        let mut boost = 0;
         for _ in 0..n_calls {
             w.tick(rng.gen_range(1..4000));
             w.counter += 1;
+            // now and then the admin changes what A may do in a room (every instance learns it at once); the rows A wrote
+            // before are then the interesting targets
+            if !w.rows.is_empty() && rng.gen_bool(0.15) {
+                let room = rng.gen_range(0..2);
+                let edit = if rng.gen_bool(0.5) {
+                    crate::world::RoomEdit::User(0, keys[1].clone(), rng.gen_bool(0.4))
+                } else {
+                    let e = ["Person", "Pet", "ns.Thing", "*"][rng.gen_range(0..4)];
+                    crate::world::RoomEdit::Right(0, rand_right(&mut rng, e))
+                };
+                let mut h = w.rooms[room].clone();
+                if w.peers[0].edit_room(&mut h, &edit).await.is_ok() {
+                    w.rooms[room] = h;
+                    w.tick(2);
+                    if let Err(e) = w.replicate(0).await {
+                        acc.inconclusive(e);
+                        return;
+                    }
+                    acc.count("room_edits", 1);
+                    log.push(json!({"t": w.t, "admin changes the room": room, "edit": edit.describe()}));
+                    boost = 3;
+                    w.tick(rng.gen_range(1..4000));
+                }
+            }
             // A (peer 1) is the instance under test; the admin creates rows so that A meets foreign rows
-            let caller = if rng.gen_bool(0.25) { 0 } else { 1 };
+            let caller = if boost > 0 || !rng.gen_bool(0.25) { 1 } else { 0 };
             let nrows = w.rows.len();
-            let k = rng.gen_range(0..100);
+            let mut k = rng.gen_range(0..100);
+            if boost > 0 && nrows > 0 {
+                boost -= 1;
+                k = [50, 50, 40, 90][rng.gen_range(0..4)];
+            }
             let r = rng.gen_range(0..1000);
             let r2 = rng.gen_range(0..1000);
             let room = rng.gen_range(0..2);
